@@ -4,6 +4,7 @@ package zzverif
 // client and fed to the real SecretController.Reconcile; after every event the secret held by every filter is logged.
 
 import (
+	"errors"
 	"bufio"
 	"context"
 	"encoding/json"
@@ -13,11 +14,13 @@ import (
 
 	"google.golang.org/protobuf/encoding/protojson"
 	corev1 "k8s.io/api/core/v1"
+	apierrors "k8s.io/apimachinery/pkg/api/errors"
 	metav1 "k8s.io/apimachinery/pkg/apis/meta/v1"
 	"k8s.io/apimachinery/pkg/types"
 	ctrl "sigs.k8s.io/controller-runtime"
 	"sigs.k8s.io/controller-runtime/pkg/client"
 	"sigs.k8s.io/controller-runtime/pkg/client/fake"
+	"sigs.k8s.io/controller-runtime/pkg/client/interceptor"
 
 	configv1 "github.com/istio-ecosystem/authservice/config/gen/go/v1"
 	"github.com/istio-ecosystem/authservice/internal/k8s"
@@ -34,7 +37,8 @@ type secScenario struct {
 	RefNs   []string   `json:"refNs"` // per filter: namespace written in the reference ("" = none)
 	Events  []secEvent `json:"events"`
 	CrossNs bool       `json:"crossNs"`
-	SameClient bool    `json:"sameClient"` // every filter uses the same OAuth client id (one client registered for several chains)
+	SameClient bool    `json:"sameClient"`
+	FaultyGets bool    `json:"faultyGets"` // the first read of every reconcile fails (a transient API-server error); a reconcile that errs is retried, as the work queue does // every filter uses the same OAuth client id (one client registered for several chains)
 }
 
 const ownNs, otherNs, holdFinalizer = "own", "other", "verif.example/hold"
@@ -67,7 +71,15 @@ func runSecretScenario(rec *recorder, sc *secScenario) error {
 	if err := protojson.Unmarshal(b, cfg); err != nil {
 		return err
 	}
-	cl := fake.NewClientBuilder().Build()
+	failNext := false
+	cl := fake.NewClientBuilder().WithInterceptorFuncs(interceptor.Funcs{
+		Get: func(ctx context.Context, c client.WithWatch, key client.ObjectKey, obj client.Object, opts ...client.GetOption) error {
+			if failNext {
+				failNext = false
+				return apierrors.NewInternalError(errors.New("verif: injected API server fault"))
+			}
+			return c.Get(ctx, key, obj, opts...)
+		}}).Build()
 	c, startErr := k8s.VerifNewController(cfg, ownNs, cl)
 	rec.emit(map[string]any{"ev": "kreset", "scenario": sc.ID, "refs": strs(sc.Refs), "startupError": startErr != nil, "expectStartupError": sc.CrossNs})
 	if startErr != nil {
@@ -127,7 +139,13 @@ func runSecretScenario(rec *recorder, sc *secScenario) error {
 				}
 			}
 		case "reconcile":
-			_, err = c.Reconcile(ctx, ctrl.Request{NamespacedName: types.NamespacedName{Namespace: ownNs, Name: e.Name}})
+			req := ctrl.Request{NamespacedName: types.NamespacedName{Namespace: ownNs, Name: e.Name}}
+			failNext = sc.FaultyGets
+			_, err = c.Reconcile(ctx, req)
+			failNext = false
+			for retry := 0; err != nil && sc.FaultyGets && retry < 3; retry++ {
+				_, err = c.Reconcile(ctx, req) // the work queue requeues a reconcile that returned an error
+			}
 		case "reconcileOtherNs":
 			_, err = c.Reconcile(ctx, ctrl.Request{NamespacedName: types.NamespacedName{Namespace: otherNs, Name: e.Name}})
 		default:
